@@ -281,3 +281,8 @@ int ts_verif_check_tree(const TSTree *tree, char *err, size_t errlen) {
 uint32_t ts_verif_root_ref_count(const TSTree *tree) {
   return tree->root.data.is_inline ? 1 : tree->root.ptr->ref_count;
 }
+
+// Number of bytes the lexer examined beyond the end of this node's subtree.
+uint32_t ts_verif_node_lookahead_bytes(TSNode self) {
+  return ts_subtree_lookahead_bytes(*(const Subtree *)self.id);
+}
